@@ -2,9 +2,27 @@
 MANIFEST.json).  Harness naming convention: <group>_<q|t>_<shape>; `q` harnesses run in both
 tiers, `t` only in the thorough tier."""
 
-HOOK_COMMITS = ["70c9beb", "09616d7"]
+HOOK_COMMITS = ["70c9beb", "09616d7", "eb29aed"]
 
 ENGINES = [
+    {
+        "name": "E3a tables",
+        "path": "/verif/smt/tables.py",
+        "serves_properties": ["C08", "C12"],
+        "kind_free_text": "the schedule's static conflict tables (trait impls) re-extracted from the source and checked against the reference conflict relation with z3, cross-checked with cvc5",
+    },
+    {
+        "name": "E3b bitwalk",
+        "path": "/verif/smt/bitwalk.py",
+        "serves_properties": ["C03", "C05"],
+        "kind_free_text": "nightly MIR of the identifier bit walkers translated to bit-vector SMT with a symbolic registry length; one-step inductive obligations decided by z3, cross-checked with cvc5; counterexamples re-solved for a small length and replayed by a Kani harness",
+    },
+    {
+        "name": "E2 models",
+        "path": "/verif/models",
+        "serves_properties": [],
+        "kind_free_text": "functional models of hashbrown (fixed-capacity linear search) and fnv (constant hasher) patched into the scratch workspace; validated by running brood's own 418 unit tests and 77 doc tests against them (lib/validate_models.sh)",
+    },
     {
         "name": "E1 kani",
         "path": "/verif/harness",
@@ -157,6 +175,70 @@ PLAN["C15"] = {
     "level_note": KANI_NOTE + " The lookup itself is resolved by the type checker; the harnesses execute the resolved code with symbolic values.",
 }
 
+SERDE_STUBS = ["alloc::fmt::format -> empty String (error-message construction on serde error paths)", "hashbrown -> /verif/models/hashbrown (E2) where a table is involved", "fnv -> constant hasher", "serde data format -> the harness token back end (/verif/harness/serde_backend.rs): structs are written as plain sequences (field-name dispatch not exercised)"]
+
+PLAN["C06"] = {
+    "quick": ["serrt_q_", "allocrt_q_", "identde_q_"],
+    "thorough": ["serrt_t_", "allocrt_t_", "identde_t_"],
+    "bounds": {"quick": "archetype round trip: <=2 rows x <=3 columns, both encodings; allocator: 2 slots", "thorough": "archetype: 4-component registry with an absent component, empty archetype, empty component set; allocator: <=4 slots, free list <=2"},
+    "outside": ["whole-World round trip (Archetypes/World Serialize+Deserialize glue, resources)", "worlds larger than the shapes", "the column-wise decoder with a zero-sized column (does not fit in 20 GB)", "field-name (map) form of struct encodings", "serde data formats themselves"],
+    "stubs": SERDE_STUBS,
+    "level_text": "Bounded model checking of brood's real Serialize and Deserialize impls against each other over a token back end: archetype (row-wise and column-wise) and identifier round trips reproduce identifiers and values row by row with independent ownership (ledger); the allocator round trip compares equal (real PartialEq), keeps free-list order and both sides issue the same next identifier.",
+    "level_note": KANI_NOTE + ARCH_NOTE,
+    "timeout": {"quick": 900, "thorough": 3600},
+}
+
+PLAN["C11"] = {
+    "quick": ["serbad_q_", "allocde_q_", "identde_q_"],
+    "thorough": ["serbad_t_", "allocde_t_", "identde_t_"],
+    "bounds": {"quick": "archetype stream of 25/27 tokens (2 rows x 2 columns): read error at 3 positions per encoding, 2 structural substitutions; allocator: declared length <=3, <=3 arbitrary identifiers (index < 8, any generation)", "thorough": "read error at every token position of both encodings; 8 structural substitutions (identifier byte, declared length, early end); allocator: declared length <=4, <=4 arbitrary identifiers"},
+    "outside": ["whole-World streams", "symbolic damage positions (every decoding decision becomes symbolic; measured not to fit) - positions are swept by instances instead", "leaks on error paths are not counted as violations (C11 forbids double drops and UB)", "text formats"],
+    "stubs": SERDE_STUBS,
+    "level_text": "Bounded model checking of the decoders on damaged input: for every swept damage the archetype decoders return an error or a well-formed archetype, never drop a value twice (ledger) and pass CBMC's memory checks; Allocator::from_serialized_parts accepts an arbitrary (symbolic) set of free and stored identifiers exactly when every slot is accounted for once, and then AllocInv and LinkInv hold; archetype identifiers are accepted exactly when their padding bits are clear.",
+    "level_note": KANI_NOTE + ARCH_NOTE,
+    "timeout": {"quick": 900, "thorough": 3600},
+}
+
+PLAN["C08"] = {
+    "quick": ["claim_", "stagepair_q_"],
+    "thorough": [],
+    "smt": ["tables"],
+    "bounds": {"quick": "claim lists of length 4 (symbolic); every view kind pair on one component/resource; table: 5 view kinds x 5 claimed kinds, view lists <=3 over <=3 components", "thorough": "same"},
+    "outside": ["the early-start path (run_add_ons / has_run) on worlds with archetypes (does not fit in memory)", "real threads and interleavings", "the hlist plumbing feeding the tables (Stager/Scheduler recursion) beyond two adjacent tasks"],
+    "stubs": [],
+    "level_text": "Solver-checked static conflict table re-extracted from the source on every run (E3a: no row defers on a conflicting pair, list-level fold cuts on every conflict), validated against rustc's real trait resolution for every pair of view kinds (stagepair harnesses); bounded model checking of the run-time claim algebra (try_merge = reference compatibility, pointwise join) and of the claims each view list makes.",
+    "level_note": KANI_NOTE + " E3a trusts its regular-expression extraction of the impl headers (cross-validated by the stagepair harnesses) and z3/cvc5.",
+}
+
+PLAN["C12"] = {
+    "quick": ["stagepair_q_", "sched_q_"],
+    "thorough": ["sched_t_"],
+    "smt": ["tables"],
+    "bounds": {"quick": "every pair of view kinds on one component / resource; schedules of 2 tasks on an entity-free world", "thorough": "schedules of 3 tasks"},
+    "outside": ["for every schedule type (grouping is rustc trait resolution; only adjacent pairs are instantiated)", "termination on thread pools of any size (no thread model)", "worlds with archetypes"],
+    "stubs": ["rayon_core::join::join -> sequential either-order executor (one symbolic bit per fork)"],
+    "level_text": "E3a: no table row cuts on a non-conflicting pair (no spurious serialisation); stagepair harnesses: rustc puts two adjacent non-conflicting tasks in one stage for every kind pair; run_schedule returns within the unwinding bound for every fork order on the checked schedules.",
+    "level_note": KANI_NOTE + " Partly claimed: see outside_the_claim.",
+}
+
+PLAN["C07"] = {
+    "quick": ["sched_q_"],
+    "thorough": ["sched_t_"],
+    "bounds": {"quick": "2 tasks, resources only, entity-free world, every fork order", "thorough": "3 tasks"},
+    "outside": ["schedules whose systems iterate entities (the result iterator over a table does not fit)", "the early-start optimisation on worlds with archetypes", "thread pools, work stealing, sub-task interleavings", "ParSystem tasks"],
+    "stubs": ["rayon_core::join::join -> sequential either-order executor (one symbolic bit per fork)", "hashbrown -> /verif/models/hashbrown (E2)", "fnv -> constant hasher"],
+    "level_text": "Bounded model checking of World::run_schedule on three tiny schedules of order-sensitive resource systems with rayon::join replaced by a sequential either-order executor: for every task order the fork/join structure admits, every task runs exactly once and the resources end as in sequential declared order.",
+    "level_note": KANI_NOTE + " Claimed on three schedules only, not for every schedule.",
+}
+
+PLAN["C03"]["quick"] += ["indices_q_", "bitwalk_q_"]
+PLAN["C03"]["smt"] = ["bitwalk"]
+PLAN["C03"]["level_note"] = PLAN["C03"]["level_note"] + " E3b trusts its MIR-subset translator (validated on every run against the repository's own unit-test vectors) and z3/cvc5."
+PLAN["C03"]["level_text"] = PLAN["C03"]["level_text"] + " E3b: the bit walk all of this rests on (identifier::Iter::new/next, IdentifierRef::get_unchecked) is in bounds and bit-exact for every registry length < 2^32 (MIR translated to bit-vector SMT, one-step induction)."
+PLAN["C05"]["smt"] = ["bitwalk"]
+PLAN["C05"]["quick"] += ["bitwalk_q_len8", "bitwalk_q_len9"]
+PLAN["C16"]["thorough"] += ["rsrc_t_clone"]
+
 for _p in PLAN.values():
     _p.setdefault("level", "model_checking")
     _p.setdefault("stubs", [])
@@ -164,7 +246,7 @@ for _p in PLAN.values():
     _p.setdefault("explanation", "")
 
 _claimed = set(PLAN)
-for _p in ["C06", "C07", "C08", "C11", "C12"]:
+for _p in []:
     if _p not in _claimed:
         NOT_APPLICABLE.append({"property_id": _p, "reason": "not claimed yet: the harnesses for this property are still under construction (see DESIGN.md build order)"})
 NOT_APPLICABLE.sort(key=lambda x: x["property_id"])
